@@ -266,7 +266,189 @@ def wire_check(seed, tier, wd):
     rc, out = run.tlc_trace("E2eTrace.tla", "E2eTrace.cfg", tf, wd + "/e2et")
     if "No error has been found" not in out:
         raise run.ToolError("E2eTrace failed:\n" + out[-2000:])
-    for x in out.splitlines():
-        if "E2EVIOL" in x:
-            viol.append((0, x.strip()))
+    for runno, text in run.tagged(out, "E2EVIOL"):
+        viol.append((0, text))
     return {"runs": nruns, "frames": frames_total, "violations": viol}
+
+# ---------------------------------------------------------------------------------------------------
+# C19: startup options
+
+OPT = {"sdelta": "trampoline-cltv-delta", "pdelta": "trampoline-policy-cltv-delta", "base": "trampoline-policy-fee-base",
+       "ppm": "trampoline-policy-fee-per-satoshi", "mpp": "trampoline-mpp-timeout", "paytimeout": "trampoline-payment-timeout",
+       "nohints": "trampoline-no-self-route-hints", "xpay": "trampoline-xpay"}
+DEFAULTS = {"sdelta": 34, "pdelta": 1008, "base": 0, "ppm": 5000, "mpp": 60, "paytimeout": 60, "nohints": False, "xpay": False}
+VALUES = [-1, 0, 1, 33, 34, 35, 1007, 1008, 65535, 65536, 2**32 - 1, 2**32, 2**63 - 1]
+
+def digits(n):
+    v = []
+    while n > 0:
+        v.append(n % 10000); n //= 10000
+    return v
+
+def bn(v):
+    return {"neg": v < 0, "d": digits(abs(v))}
+
+def templates():
+    """request templates with real signed invoices, built by the Rust harness"""
+    A = 1000
+    scen = {"cfg": {"base": 0, "ppm": 0, "pdelta": 40, "sdelta": 10, "mpp": 60},
+            "invs": [{"hash": "h1", "amt": A}, {"hash": "h2", "amt": A, "hint": True}],
+            "htlcs": [{"hash": "h1", "inv": 1, "amt": A, "total": A, "exp": 1000, "rel": 500},
+                      {"hash": "h2", "inv": 2, "amt": A, "total": A, "exp": 1000, "rel": 500}], "probe": []}
+    p = VERIF + "/work/e2e_scen.json"
+    json.dump(scen, open(p, "w"))
+    out = subprocess.run([run.VFH, "mkreq", p], capture_output=True, text=True)
+    if out.returncode != 0:
+        raise run.ToolError("vfh mkreq failed: " + out.stderr[-1000:])
+    r = json.loads(out.stdout)
+    return {"A": A, "local": r["local"], "ok": r["reqs"][0], "hint": r["reqs"][1]}
+
+def patched(tmpl, rid, htlc_id, amount, total, exp, rel):
+    q = json.loads(json.dumps(tmpl))
+    q["htlc"]["id"] = htlc_id; q["htlc"]["amount_msat"] = amount; q["htlc"]["cltv_expiry"] = exp; q["htlc"]["cltv_expiry_relative"] = rel
+    q["onion"]["forward_msat"] = amount; q["onion"]["total_msat"] = total; q["onion"]["outgoing_cltv_value"] = exp
+    return {"jsonrpc": "2.0", "id": rid, "method": "htlc_accepted", "params": q}
+
+def answer_of(pl, rid, timeout):
+    fr = pl.read_frames(lambda f: any(ok and o.get("id") == rid for ok, o in f), timeout)
+    for ok, o in fr:
+        if ok and o.get("id") == rid:
+            return o
+    return None
+
+def one_config(runno, opts, T, timed):
+    height = 1000
+    options = {OPT[k]: v for k, v in opts.items()}
+    pl = Plugin(options=options, height=height)
+    pl.node.node_id = T["local"]
+    rec = {"ev": "cfg", "run": runno, "opts": {k: (bn(v) if k not in ("nohints", "xpay") else v) for k, v in opts.items()},
+           "raw": {k: str(v) for k, v in opts.items()}, "started": False, "feebytes": [], "hint": "na", "mppclass": "na",
+           "pay": {"retry": [], "delay_far": [], "delay_near": [], "label": False, "risk": False},
+           "near_gap": [], "near_expected": []}
+    try:
+        st = pl.handshake()
+        if st == "hung":
+            rec["started"] = True; rec["feebytes"] = [-1]
+            return rec
+        rec["started"] = st == "ok"
+        if st != "ok":
+            return rec
+        A = T["A"]
+        base, ppm, pd, sd = opts["base"], opts["ppm"], opts["pdelta"], opts["sdelta"]
+        need = A + base + A * ppm // 10**6
+        # a. declared total too low -> fee failure carrying the advertised policy
+        pl.send(patched(T["ok"], "a", 1, A - 1, A - 1, height + 70000, 70000))
+        o = answer_of(pl, "a", 5.0)
+        if o and isinstance(o.get("result"), dict) and o["result"].get("result") == "fail":
+            rec["feebytes"] = list(bytes.fromhex(o["result"]["failure_message"]))
+        def quiesce():
+            # let the previous lifecycle finish its bookkeeping (state back to Free), otherwise the next set may be
+            # answered temporary_node_failure by the race between the old and the new lifecycle's mark_failed
+            end = time.time() + 2.0
+            while time.time() < end:
+                with pl.node.lock:
+                    vals = [v[0] for k, v in pl.node.store.items() if k[-1] == "state"]
+                if all(v == '"Free"' for v in vals):
+                    time.sleep(0.02)
+                    return
+                time.sleep(0.01)
+        def funded(rid, hid, exp):
+            quiesce()
+            n0 = len([c for c in pl.node.calls if c[0] == "pay"])
+            pl.send(patched(T["ok"], rid, hid, need, need, exp, 70000))
+            answer_of(pl, rid, 6.0)
+            pays = [c for c in pl.node.calls if c[0] == "pay"]
+            return pays[n0][1] if len(pays) > n0 else None
+        # b. far expiry: the policy delta caps the route delay
+        p1 = funded("b", 2, height + sd + pd + 1000)
+        if p1:
+            rec["pay"]["retry"] = digits(p1.get("retry_for", 0)); rec["pay"]["delay_far"] = digits(p1.get("maxdelay", 0))
+            rec["pay"]["label"] = "label" in p1 and p1["label"] is not None
+            rec["pay"]["risk"] = "riskfactor" in p1 and p1["riskfactor"] is not None
+        # c. near expiry: expiry - height - safety delta
+        near = min(pd - 1, 5)
+        p2 = funded("c", 3, height + sd + near)
+        rec["near_gap"] = digits(sd + near); rec["near_expected"] = digits(near)
+        if p2:
+            rec["pay"]["delay_near"] = digits(p2.get("maxdelay", 0))
+        else:
+            rec["pay"]["delay_near"] = [-1]
+        # d. invoice routed through ourselves
+        quiesce()
+        n0 = len([c for c in pl.node.calls if c[0] == "pay"])
+        pl.send(patched(T["hint"], "d", 4, need, need, height + sd + pd + 1000, 70000))
+        o = answer_of(pl, "d", 6.0)
+        paid = len([c for c in pl.node.calls if c[0] == "pay"]) > n0
+        if paid:
+            rec["hint"] = "held"
+        elif o and isinstance(o.get("result"), dict) and o["result"].get("failure_message") == "2002":
+            rec["hint"] = "failnode"
+        else:
+            rec["hint"] = "other"
+        # e. MPP timeout of a set that never completes
+        if timed:
+            mpp = opts["mpp"]
+            quiesce()
+            t0 = time.time()
+            pl.send(patched(T["ok"], "e", 5, need - 1, need, height + sd + pd + 1000, 70000))
+            wait = (mpp + 2.0) if mpp <= 2 else 2.5
+            o = answer_of(pl, "e", wait)
+            dt = time.time() - t0
+            if mpp <= 2:
+                rec["mppclass"] = "late" if o is None else ("early" if dt < mpp - 0.2 else "ontime" if dt <= mpp + 1.2 else "late")
+            else:
+                rec["mppclass"] = "na" if o is None else "early"
+        return rec
+    finally:
+        pl.close()
+
+def config_vectors(seed, tier):
+    rng = random.Random(seed)
+    vs = []
+    keys = ["sdelta", "pdelta", "base", "ppm", "mpp", "paytimeout"]
+    def mk(**kw):
+        d = dict(DEFAULTS); d.update(kw); return d
+    vs.append(mk())
+    # every value of every option alone, the others at a valid baseline
+    for k in keys:
+        for v in VALUES:
+            if k == "mpp" and v > 2:
+                pass
+            vs.append(mk(**{k: v}))
+    # swapped / equal deltas and their neighbours
+    for (s, p) in [(34, 34), (35, 34), (33, 34), (0, 1), (0, 0), (1, 0), (65534, 65535), (65535, 65535), (65535, 65536), (1008, 34), (1007, 1008)]:
+        vs.append(mk(sdelta=s, pdelta=p))
+    for nh in (True, False):
+        for xp in (True, False):
+            vs.append(mk(nohints=nh, xpay=xp, base=rng.choice([1, 1000]), ppm=rng.choice([0, 10000]), mpp=rng.choice([0, 1, 2])))
+    n = 400 if tier == "thorough" else 40
+    for _ in range(n):
+        vs.append(mk(**{k: rng.choice(VALUES) for k in keys}, nohints=rng.random() < 0.5, xpay=rng.random() < 0.5))
+    if tier == "thorough":
+        for s in VALUES:
+            for p in VALUES:
+                vs.append(mk(sdelta=s, pdelta=p))
+    return vs
+
+def config_check(seed, tier, wd):
+    build()
+    T = templates()
+    vs = config_vectors(seed, tier)
+    from concurrent.futures import ThreadPoolExecutor
+    def job(kv):
+        k, v = kv
+        timed = v["mpp"] in (0, 1, 2) or k % 9 == 0
+        return one_config(k + 1, v, T, timed)
+    with ThreadPoolExecutor(max_workers=10) as ex:
+        recs = list(ex.map(job, enumerate(vs)))
+    tf = wd + "/cfg.ndjson"
+    with open(tf, "w") as f:
+        for r in recs:
+            f.write(json.dumps(r) + "\n")
+    rc, out = run.tlc_trace("ConfigTrace.tla", "ConfigTrace.cfg", tf, wd + "/cfgt")
+    if "No error has been found" not in out:
+        raise run.ToolError("ConfigTrace failed:\n" + out[-2500:])
+    viol = []
+    for runno, text in run.tagged(out, "CFGVIOL"):
+        viol.append((runno, text, recs[runno - 1]))
+    return {"runs": len(recs), "started": sum(1 for r in recs if r["started"]), "violations": viol, "samples": [recs[0], recs[len(recs) // 2]]}
